@@ -366,7 +366,7 @@ PROPS = {
     "C10": {
         "parts": [
             {"engine": "D", "crate": "d_net", "harnesses": [
-                {"name": "c10_put_step", "covers": ["below_capacity", "at_capacity_accept", "at_capacity_refuse", "reoffered_after_refusal"],
+                {"name": "c10_put_step", "covers": ["below_capacity", "at_capacity_accept", "at_capacity_refuse", "reoffered_after_refusal", "reoffered_same_bytes_after_refusal"],
                  "quick": {"max_paths": 20000, "timeout": 600}, "thorough": {"env": {"C10_MAXCAP": 4}, "max_paths": 1000000, "timeout": 3400, "seeds": [0, 1]}},
                 {"name": "c10_burst", "covers": ["both_accepted"],
                  "quick": {"max_paths": 20000, "timeout": 600}, "thorough": {"env": {"C10_MAXCAP": 4, "C10_BURST": 3}, "max_paths": 1000000, "timeout": 3400}},
